@@ -6105,7 +6105,10 @@ impl Machine {
                 .prelude
                 .b;
 
-            if b <= b_cutoff {
+            // a cleaner is due when the choice point of its call is gone. The
+            // choice point of an enclosing call that is still running is
+            // exactly at b: that one has to wait.
+            if b < b_cutoff {
                 self.machine_st.scc_block = prev_block;
 
                 if let Some(r) = dest.as_var() {
